@@ -504,7 +504,7 @@ def run_thorough(ctx):
 
 
 def run(ctx):
-    r02_1(ctx)
-    r02_2(ctx)
-    r02_3(ctx)
-    r02_4(ctx)
+    ctx.guard(r02_1)
+    ctx.guard(r02_2)
+    ctx.guard(r02_3)
+    ctx.guard(r02_4)
